@@ -1619,7 +1619,18 @@ def chain_results(cls, R, ms, pos):
 
 
 # ------------------------------------------------------------------------------------------------
+# ------------------------------------------------------------------------------------------------
+# history / object-identity probes (harness/histories.py); the adapters of the four FEC properties live in harness/hist_fec.py
+def ENTRY_POINTS():
+    import hist_fec
+
+    return hist_fec.entry_points("c06")
+
+
 def run(ctx):
+    import histories
+
+    histories.run(ctx, ENTRY_POINTS)  # generic history / object-identity probes (adapters: harness/hist_fec.py)
     ctx.rule = (
         "per code: every one of the 2^k messages through generate; received words = all 2^n words "
         "(n<=17 always, Golay 2^20: a seeded quarter in quick, all in thorough) plus one word of every "
@@ -2305,6 +2316,10 @@ def rank_failures(ctx, refs):
 
 # ------------------------------------------------------------------------------------------------
 def replay(obj):
+    if str((obj.get("failure") or {}).get("kind", "")).startswith("history:"):
+        import histories
+
+        return histories.replay((obj.get("failure") or {}).get("input") or {}, ENTRY_POINTS)
     f = obj.get("failure") or {}
     inp = f.get("input", {})
     table = {c[0]: c for c in codes()}
